@@ -116,7 +116,7 @@ func (c01) Runs(tier string) int {
 }
 
 func (c01) Gen(r *kern.Rng, tier string, idx int) *Trace {
-	if idx%200 == 3 {
+	if idx%197 == 3 { // a prime, so that the sweeps spread over all worker shards
 		// length sweep: the same setting and data for several hundred consecutive
 		// input lengths, so that the end of the data meets every phase of the
 		// encoder's output-buffer roll-over
@@ -128,7 +128,7 @@ func (c01) Gen(r *kern.Rng, tier string, idx int) *Trace {
 		if r.Pct(30) {
 			sc.Ops = []scen.WOp{{K: "w", N: 1000 + r.Intn(3000)}, {K: "f"}, {K: "w", N: 1 << 30}, {K: "c"}}
 		}
-		return &Trace{Property: "C01", Family: "W-plain(length sweep)", W: sc, Sweep: true, Stride: tierLen(tier, 400, 1200)}
+		return &Trace{Property: "C01", Family: "W-plain(length sweep)", W: sc, Sweep: true, Stride: tierLen(tier, 400, 800)}
 	}
 	maxLen := tierLen(tier, 300000, 2<<20)
 	if r.Pct(70) {
@@ -141,33 +141,7 @@ func (c01) Gen(r *kern.Rng, tier string, idx int) *Trace {
 
 func (c01) Exec(tr *Trace, keep bool) *Outcome {
 	if tr.Sweep {
-		o := &Outcome{LevelIndep: true}
-		o.stat("length_sweeps", 1)
-		h := uint64(0)
-		for d := 0; d < tr.Stride; d++ {
-			c := tr.Clone()
-			c.Sweep, c.Stride = false, 0
-			c.W.Data.Len = tr.W.Data.Len + d
-			so := c01{}.Exec(c, keep)
-			o.Evals += so.Evals
-			o.Events += so.Events
-			o.LogHash = o.LogHash*0x100000001b3 ^ so.LogHash
-			o.Sigs = append(o.Sigs, so.Sigs...)
-			h = h*0x100000001b3 ^ so.Digest
-			for k, v := range so.Stats {
-				o.stat(k, v)
-			}
-			o.Violations = append(o.Violations, so.Violations...)
-			if len(o.Violations) > 3 {
-				break
-			}
-		}
-		if len(o.Sigs) > 16 {
-			o.Sigs = o.Sigs[:16]
-		}
-		o.Digest = h
-		o.Sample = fmt.Sprintf("length sweep: flate %s level %d data %s, lengths %d..%d", tr.W.Ctor, tr.W.Level, tr.W.Data.Kind, tr.W.Data.Len, tr.W.Data.Len+tr.Stride-1)
-		return o
+		return lengthSweep(tr, keep, func(c *Trace) *Outcome { return c01{}.Exec(c, keep) })
 	}
 	o := &Outcome{LevelIndep: true}
 	sc := tr.W
@@ -246,6 +220,37 @@ func sameAsStdlibSeg(sc *scen.WScen, seg int) bool {
 		}
 	}
 	return true
+}
+
+// lengthSweep executes the trace for Stride consecutive data lengths.
+func lengthSweep(tr *Trace, keep bool, exec func(*Trace) *Outcome) *Outcome {
+	o := &Outcome{LevelIndep: true}
+	o.stat("length_sweeps", 1)
+	h := uint64(0)
+	for d := 0; d < tr.Stride; d++ {
+		c := tr.Clone()
+		c.Sweep, c.Stride = false, 0
+		c.W.Data.Len = tr.W.Data.Len + d
+		so := exec(c)
+		o.Evals += so.Evals
+		o.Events += so.Events
+		o.LogHash = o.LogHash*0x100000001b3 ^ so.LogHash
+		o.Sigs = append(o.Sigs, so.Sigs...)
+		h = h*0x100000001b3 ^ so.Digest
+		for k, v := range so.Stats {
+			o.stat(k, v)
+		}
+		o.Violations = append(o.Violations, so.Violations...)
+		if len(o.Violations) > 3 {
+			break
+		}
+	}
+	if len(o.Sigs) > 16 {
+		o.Sigs = o.Sigs[:16]
+	}
+	o.Digest = h
+	o.Sample = fmt.Sprintf("length sweep: %s %s level %d data %s, lengths %d..%d, ops %s", tr.W.Pkg, tr.W.Ctor, tr.W.Level, tr.W.Data.Kind, tr.W.Data.Len, tr.W.Data.Len+tr.Stride-1, wFeatures(tr.W)["ops"])
+	return o
 }
 
 func (c01) Shrinks(tr *Trace) []*Trace { return shrinkTraceW(tr) }
@@ -484,6 +489,18 @@ func (c10) ID() string           { return "C10" }
 func (c10) Runs(tier string) int { return tierLen(tier, 5000, 50000) }
 
 func (c10) Gen(r *kern.Rng, tier string, idx int) *Trace {
+	if idx%199 == 5 {
+		// Flush after each of several hundred consecutive data lengths
+		sc := &scen.WScen{Pkg: r.PickS("flate", "flate", "gzip", "zlib"), Ctor: "new"}
+		if sc.Pkg != "flate" {
+			sc.Ctor = "level"
+		}
+		sc.Level = r.Pick(-2, -2, 1, 2, -1)
+		sc.Data = scen.DataSpec{Kind: r.PickS("rand", "rand", "text", "alpha", "fib"), Seed: r.Uint64(), P1: r.Pick(3, 16, 24, 200)}
+		sc.Data.Len = r.Pick(60, 7900, 8100, 16200, 30000, 65500) + r.Intn(300)
+		sc.Ops = []scen.WOp{{K: "w", N: 1 << 30}, {K: "f"}, {K: "c"}}
+		return &Trace{Property: "C10", Family: "W-plain+flush-invariant(length sweep)", W: sc, Sweep: true, Stride: tierLen(tier, 300, 600)}
+	}
 	maxLen := tierLen(tier, 200000, 1<<20)
 	if r.Pct(60) {
 		maxLen = 20000
@@ -572,6 +589,9 @@ func flushPrefixCheck(sc *scen.WScen, emitted, model []byte) (oracle, detail str
 }
 
 func (c10) Exec(tr *Trace, keep bool) *Outcome {
+	if tr.Sweep {
+		return lengthSweep(tr, keep, func(c *Trace) *Outcome { return c10{}.Exec(c, keep) })
+	}
 	o := &Outcome{LevelIndep: true}
 	sc := tr.W
 	rec, log := runW(sc, true, keep)
